@@ -25,6 +25,10 @@ MANIFEST = {
             "on every run. End-to-end theorem: every returned component equals the SAFE recursive model on the "
             "centre-sampled gradient within the truncation bound (2*eps*M*sum|a| under the tap-count condition that the "
             "harness evaluates on the implementation's own tap count); sign case and time-shift invariance proved. "
+            "mod_grad_axis at model level: scaling one axis' waveform scales that component by |c|, keeps the others and "
+            "the sample count. Histories on one Sequence object (fill the block cache by calculate_pns/get_block/"
+            "waveforms, then mod_grad_axis/flip_grad_axis/set_block/read/remove_duplicates, then predict again; both "
+            "cache settings) must give the SAFE model of the sequence as it is now. "
             "Random sequences (trapezoid/extended/arbitrary gradients, channel subsets, delays, chained "
             "non-zero block edges, rasters 10/20 us, several gamma, random hardware) run through calculate_pns and are "
             "compared with an independent exact-Fraction SAFE evaluation (recursive filter, per-event sampling at raster "
@@ -48,7 +52,7 @@ RULE = ('sequences of 1-4 blocks with, per channel, none / trapezoid / extended 
         'Fractions, recursive filter, gradient evaluated event by event at raster centres; components, norm, count and ok '
         'compared. Fixed extra streams: 8 multi-axis near-threshold cases on non-proton systems (every component < 1, norm in '
         '[0.9, 1.2]), 8 sequences written to a .seq file with a 20/5 us gradient raster and read into a default-raster '
-        'Sequence, scaled (|c|) and time-shifted re-runs of ~30% of the cases. distinct = distinct cases; non-trivial = at least one axis with peak stimulation > 1e-3')
+        'Sequence, 20 histories on one object (cache warm-up, API change, second prediction), scaled (|c|) and time-shifted re-runs of ~30% of the cases. distinct = distinct cases; non-trivial = at least one axis with peak stimulation > 1e-3')
 TRUSTED = ['binary64 arithmetic of NumPy/SciPy (PPoly evaluation, np.convolve, np.diff) is outside the model: sampled',
            'tap count n = min(round(log(eps)/log(1-alpha)), N) is computed by the harness with the same float formula '
            'and passed to the model; the oracle tolerance contains the exact truncation bound M(1-alpha)^n',
